@@ -1,8 +1,20 @@
 _VATOMIC = [["sync/atomic", "atomic \"github.com/panjf2000/gnet/v2/pkg/vatomic\""]]
 _VSYS = [["golang.org/x/sys/unix", "unix \"github.com/panjf2000/gnet/v2/pkg/vsys\""]]
 
+import os as _os, sys as _sys
+_sys.path.insert(0, _os.path.dirname(_os.path.dirname(_os.path.abspath(__file__))))
+from loopfam import drv as _loopdrv, GENS as _GENS
+
+# "High-priority requests issued by one goroutine are carried out in issue order" also depends on WHICH priority the
+# request functions of connection_unix.go ask for: the generated table trigger_priorities_as_modelled (genloop) pins
+# them, and the real engine is run once through the async-flood scenario (1500 AsyncWrite, then AsyncWritev, then
+# AsyncWrite behind the backlog) with the issue-order oracle (added after a seeded change lowered AsyncWritev's priority)
+_FLOOD = _loopdrv("scenario:async-flood", n=1)
+_FLOOD["sites"] = ["^outbound-async-order$", "^async-callback$", "^loop-stuck$", "^engine-start$"]
+
 PROP = dict(
-    drivers=[
+    gens=_GENS,
+    drivers=[_FLOOD,
         dict(cmd="drv-wakeup", family="wakeup", shrink=False,
              unix_swap=["pkg/netpoll/poller_epoll_default.go"],
              swaps=[["pkg/netpoll/poller_epoll_default.go", _VATOMIC],
